@@ -609,3 +609,24 @@ pub fn split_id(id: Id) -> (PageIndex, SlotIndex) {
     let page = index >> PAGE_LEN_BITS;
     (PageIndex::new(page), SlotIndex::new(slot))
 }
+
+/// Verification hooks (compiled only with `--cfg salsa_verif`).
+#[cfg(salsa_verif)]
+pub mod verif_hooks {
+    use super::*;
+
+    pub const PAGE_LEN: usize = super::PAGE_LEN;
+    pub const MAX_PAGES: usize = super::MAX_PAGES;
+
+    /// `make_id(page, slot).index()`
+    pub fn make_id(page: usize, slot: usize) -> u32 {
+        super::make_id(PageIndex::new(page), SlotIndex::new(slot)).index()
+    }
+
+    /// `split_id` of the id with the given index.
+    pub fn split_id(index: u32) -> (usize, usize) {
+        // SAFETY: the harness only passes indices below `Id::MAX_U32`.
+        let (p, s) = super::split_id(unsafe { Id::from_index(index) });
+        (p.0, s.0)
+    }
+}
